@@ -362,6 +362,10 @@ static void pwhash_all(Ctx &c) {
     c.rc(crypto_pwhash_argon2i(c.out(ol), ol, (const char *) pw, pl, salt, 3, mem, 1)); c.rc(crypto_pwhash_argon2id(c.out(ol), ol, (const char *) pw, pl, salt, 1, mem, 2));
     c.rc(crypto_pwhash_scryptsalsa208sha256_ll(pw, pl, salt, c.r.below(33), (uint64_t) 1 << (1 + c.r.below(6)), 1 + (uint32_t) c.r.below(3), 1 + (uint32_t) c.r.below(2), c.out(ol), ol));
     c.rc(crypto_pwhash_scryptsalsa208sha256(c.out(ol), ol, (const char *) pw, pl, salt, 32768, 1 << 16));
+    // parameters every scrypt backend must refuse alike (N not a power of two or below 2, r or p zero): only the verdict is recorded
+    { static const uint64_t NB[] = { 0, 1, 3, 5, 6, 12, (uint64_t) 1 << 32 }; uint8_t *junk = c.scratch(ol);
+      c.rc(crypto_pwhash_scryptsalsa208sha256_ll(pw, pl, salt, 8, NB[c.r.below(7)], 1 + (uint32_t) c.r.below(2), 1, junk, ol));
+      c.rc(crypto_pwhash_scryptsalsa208sha256_ll(pw, pl, salt, 8, 16, 0, 1, junk, ol)); c.rc(crypto_pwhash_scryptsalsa208sha256_ll(pw, pl, salt, 8, 16, 1, 0, junk, ol)); }
     // fixed well-formed strings (the _str producers draw a random salt, so they are not deterministic entries)
     static const char *S1 = "$argon2id$v=19$m=8,t=1,p=1$c29tZXNhbHRzb21lc2FsdA$Nf0LOcFbTX0x1h/lJ0UKzTCzQS5CKUhqpMp1QL6o8dM";
     static const char *S2 = "$argon2i$v=19$m=8,t=3,p=1$c29tZXNhbHRzb21lc2FsdA$Nf0LOcFbTX0x1h/lJ0UKzTCzQS5CKUhqpMp1QL6o8dM";
@@ -400,6 +404,21 @@ static void pwhash_strings(Ctx &c) {
         c.rc(crypto_pwhash_str_needs_rehash(sp, 1, 8192)); c.rc(crypto_pwhash_argon2i_str_needs_rehash(sp, 3, 8192)); c.rc(crypto_pwhash_argon2id_str_needs_rehash(sp, 1, 8192));
         c.rc(crypto_pwhash_scryptsalsa208sha256_str_needs_rehash(sp, 32768, 1 << 16));
     }
+}
+
+// scrypt parameter screening: every backend must accept and refuse exactly the same (N, r, p); tiny valid parameters are computed too
+static void scrypt_params(Ctx &c) {
+    size_t pl = c.r.below(20), ol = 16 + c.r.below(17); uint8_t *pw = c.in(pl), *salt = c.in(8), *junk = c.scratch(ol);
+    for (uint64_t N : { (uint64_t) 0, (uint64_t) 1, (uint64_t) 3, (uint64_t) 5, (uint64_t) 6, (uint64_t) 12, (uint64_t) 1 << 32, ((uint64_t) 1 << 32) + 2 })
+        c.rc(crypto_pwhash_scryptsalsa208sha256_ll(pw, pl, salt, 8, N, 1 + (uint32_t) c.r.below(2), 1, junk, ol));
+    c.rc(crypto_pwhash_scryptsalsa208sha256_ll(pw, pl, salt, 8, 16, 0, 1, junk, ol)); c.rc(crypto_pwhash_scryptsalsa208sha256_ll(pw, pl, salt, 8, 16, 1, 0, junk, ol));
+    c.rc(crypto_pwhash_scryptsalsa208sha256_ll(pw, pl, salt, 8, 4, 1u << 15, 1u << 15, junk, ol));      // r * p too large
+    c.rc(crypto_pwhash_scryptsalsa208sha256_ll(pw, pl, salt, 8, 2, 1, 1, c.out(ol), ol)); c.rc(crypto_pwhash_scryptsalsa208sha256_ll(pw, pl, salt, 8, 4, 2, 2, c.out(ol), ol));
+    // hash strings whose N_log2 digit is outside the usable range ('.' = 0 -> N = 1, 'z' = 63)
+    static const char *S[] = { "$7$./..../....saltsaltsaltsaltsaltsaltsaltsaltsaltsaltsal$aaaaaaaaaaaaaaaaaaaaaaaaaaaaaaaaaaaaaaaaaa.",
+                               "$7$z/..../....saltsaltsaltsaltsaltsaltsaltsaltsaltsaltsal$aaaaaaaaaaaaaaaaaaaaaaaaaaaaaaaaaaaaaaaaaa.",
+                               "$7$0/..../....saltsaltsaltsaltsaltsaltsaltsaltsaltsaltsal$aaaaaaaaaaaaaaaaaaaaaaaaaaaaaaaaaaaaaaaaaa." };
+    for (const char *t : S) { Bytes tz(t, t + strlen(t) + 1); c.rc(crypto_pwhash_scryptsalsa208sha256_str_verify((const char *) c.inb(tz), (const char *) pw, pl)); }
 }
 
 // Argon2 with more than one address block per segment (segment length > 128 <=> m >= 516 KiB): the data-independent addressing
@@ -468,6 +487,7 @@ inline const std::vector<Entry> &table() {
         { "codecs", codecs_all, "sodium_bin2hex sodium_hex2bin sodium_bin2base64 sodium_base642bin sodium_base64_encoded_len", 0 },
         { "padding", pad_all, "sodium_pad sodium_unpad", 0 },
         { "pwhash_large", pwhash_large, "crypto_pwhash", 2 },
+        { "scrypt_params", scrypt_params, "crypto_pwhash_scryptsalsa208sha256_ll crypto_pwhash_scryptsalsa208sha256_str_verify", 0 },
         { "pwhash_strings", pwhash_strings, "crypto_pwhash_str_verify crypto_pwhash_argon2i_str_verify crypto_pwhash_argon2id_str_verify crypto_pwhash_scryptsalsa208sha256_str_verify crypto_pwhash_str_needs_rehash crypto_pwhash_argon2i_str_needs_rehash crypto_pwhash_argon2id_str_needs_rehash crypto_pwhash_scryptsalsa208sha256_str_needs_rehash", 1 },
         { "pwhash", pwhash_all, "crypto_pwhash crypto_pwhash_argon2i crypto_pwhash_argon2id crypto_pwhash_scryptsalsa208sha256 crypto_pwhash_scryptsalsa208sha256_ll crypto_pwhash_str_verify crypto_pwhash_argon2i_str_verify crypto_pwhash_argon2id_str_verify crypto_pwhash_scryptsalsa208sha256_str_verify crypto_pwhash_str_needs_rehash crypto_pwhash_argon2i_str_needs_rehash crypto_pwhash_argon2id_str_needs_rehash crypto_pwhash_scryptsalsa208sha256_str_needs_rehash", 2 },
     };
